@@ -13,13 +13,16 @@ CONSTANTS Types, Mode,    \* Mode \in {"bin", "cmp", "un", "cast", "tree", "chai
           Thorough        \* FALSE: fewer operands for the expensive wide cells
 
 Unsigned == IntTypes \ SignedTypes
+\* a value that is a boundary only when its low half is looked at alone: 2^(w/2) + 8 (upper half one, lower half a power
+\* of two; seeded change C10j read a 128-bit divisor through its low 64 bits)
+HalfCross(w) == Add(Shl(FromNat(1, w), w \div 2), FromNat(8, w))
 \* boundary operands of width w (bit patterns)
 Bnd(w) == { Zero(w), FromNat(1, w), FromNat(2, w), FromNat(3, w), FromNat(7, w), FromNat(w - 1, w), FromNat(w, w),
             Ones(w), Sub(Ones(w), FromNat(1, w)), MinSigned(w), MaxSigned(w), Add(MinSigned(w), FromNat(1, w)),
             Shl(FromNat(1, w), w \div 2), Sub(Shl(FromNat(1, w), w \div 2), FromNat(1, w)), FromNat(100, w),
-            Mul(FromNat(193, w), Shl(FromNat(1, w), w - 8)) }
+            Mul(FromNat(193, w), Shl(FromNat(1, w), w - 8)), HalfCross(w) }
 \* a smaller set for the expensive cells (division on 64 and 128 bits costs TLC ~1 s per cell)
-Few(w) == { Zero(w), FromNat(1, w), FromNat(7, w), Ones(w), MinSigned(w), MaxSigned(w) }
+Few(w) == { Zero(w), FromNat(1, w), FromNat(7, w), Ones(w), MinSigned(w), MaxSigned(w), HalfCross(w) }
            \cup (IF Thorough THEN { FromNat(3, w), Sub(Ones(w), FromNat(1, w)), Shl(FromNat(1, w), w \div 2),
                                     Mul(FromNat(193, w), Shl(FromNat(1, w), w - 8)) } ELSE {})
 TreeOperands(w) == { FromNat(1, w), FromNat(3, w), Ones(w), MinSigned(w) } \cup (IF Thorough THEN { MaxSigned(w), FromNat(w - 1, w) } ELSE {})
